@@ -800,11 +800,11 @@ def callEntry (σ1 : St) (t : Nat) (o : Outer) (g ng ns : Nat) : St :=
       | .clone =>
           if h_.sender then
             ((σ1.setHd g fun y => { y with uni := false }).setHd ng fun _ =>
-              { sender := true, stream := 0, uni := false, fut := h_.fut, view := false, alive := true, used := true }).goto t .cs1
+              { sender := true, stream := 0, uni := false, fut := h_.fut, view := false, alive := false, used := true }).goto t .cs1
           else
-            (σ1.setHd ng fun _ => { h_ with uni := false, alive := true, used := true, busy := false }).goto t .cr1
+            (σ1.setHd ng fun _ => { h_ with uni := false, alive := false, used := true, busy := false }).goto t .cr1
       | .addStream =>
-          (σ1.setHd ng fun _ => { h_ with stream := ns, uni := true, alive := true, used := true, busy := false }).goto t .a1
+          (σ1.setHd ng fun _ => { h_ with stream := ns, uni := true, alive := false, used := true, busy := false }).goto t .a1
       | .drop => if h_.sender then (σ1.setHd g fun y => { y with alive := false }).goto t .ds1
                  else (σ1.setHd g fun y => { y with alive := false }).goto t .dr1
       | .unsub => if h_.sender then (σ1.setHd g fun y => { y with alive := false }).goto t .ds1
@@ -826,6 +826,7 @@ def step (σ : St) : Label → St
           let x := σ.th t
           let σ1 := ((σ.goto t .idle).flush t).setHd x.g fun y => { y with busy := false }
           match x.outer with
+          | .clone | .addStream => σ1.setHd x.ng fun y => { y with alive := true }
           | .intoSingle | .intoSingleFut =>
               if (σ.th t).pc = .ret .single then σ1.setHd x.g fun y => { y with view := true } else σ1
           | .intoMulti => σ1.setHd x.g fun y => { y with view := false }
